@@ -13,11 +13,17 @@ package ntsx
 import (
 	"bufio"
 	"context"
+	"crypto/ecdsa"
+	"crypto/elliptic"
 	"crypto/rand"
+	"crypto/tls"
+	"crypto/x509"
+	"crypto/x509/pkix"
 	"encoding/hex"
 	"fmt"
 	"io"
 	"log/slog"
+	"math/big"
 	"net"
 	"os"
 	"os/exec"
@@ -389,6 +395,8 @@ func Run(t []string) string {
 	case p[0] == "nts.newresp" && len(p) == 4:
 		pkt := nts.NewResponsePacket(hexlist(p[1]), hexb(p[2]), hexb(p[3]))
 		return fmt.Sprintf("ok uid=%s pt=%s", lib.Hex(pkt.UniqueID.ID), lib.Hex(pkt.Auth.PlainText))
+	case p[0] == "seq.run" && len(p) >= 2:
+		return seqRun(p[1:])
 	case p[0] == "srv.reply" && len(p) == 3:
 		return srvReply(t, hexb(p[1]), hexb(p[2]))
 	case p[0] == "lsn.probe" && len(p) == 1:
@@ -434,6 +442,168 @@ func Run(t []string) string {
 	}
 	return "bad-op"
 }
+
+// ---------------------------------------------------------------- results kept across calls
+
+// kept is what one call returned: `full` renders the Go values the caller still holds (it is
+// called once right after the call and once after the last call of the sequence), `show` turns
+// a rendering into the answer text.
+type kept struct {
+	full func() string
+	show func(string) string
+}
+
+func same(s string) string { return s }
+
+// seqRun makes the calls of a seq.run op one after the other, keeps every returned value as the
+// real callers do (ServerCookie by value — its C2S/S2C are sub-slices of whatever buffer Decrypt
+// opened the cookie into —, the packet's cookie list, the fetcher's pool, the exported keys), and
+// renders all of them only after the last call. A result that reads differently at the end than
+// right after its call is reported as `unstable=`.
+func seqRun(steps []string) string {
+	var ks []kept
+	var early []string
+	for _, st := range steps {
+		f := strings.Split(st, ":")
+		var k kept
+		switch {
+		case f[0] == "d" && len(f) == 3:
+			var ec ntske.EncryptedServerCookie
+			key := hexb(f[2])
+			if err := ec.Decode(exact(hexb(f[1]))); err != nil {
+				msg := "err:" + ErrName(err)
+				k = kept{func() string { return msg }, same}
+				break
+			}
+			oracleOpen(key, ec.Nonce, ec.Ciphertext, nil)
+			c, err := ec.Decrypt(key)
+			if err != nil {
+				msg := "err:" + ErrName(err)
+				k = kept{func() string { return msg }, same}
+				break
+			}
+			k = kept{func() string { return fmt.Sprintf("ok:%d:%s:%s", c.Algo, lib.Hex(c.S2C), lib.Hex(c.C2S)) }, same}
+		case f[0] == "s" && len(f) == 2:
+			var c ntske.ServerCookie
+			if err := c.Decode(exact(hexb(f[1]))); err != nil {
+				msg := "err:" + ErrName(err)
+				k = kept{func() string { return msg }, same}
+				break
+			}
+			k = kept{func() string { return fmt.Sprintf("ok:%d:%s:%s", c.Algo, lib.Hex(c.S2C), lib.Hex(c.C2S)) }, same}
+		case f[0] == "q" && len(f) == 3:
+			pkt := new(nts.Packet)
+			b, key := exact(hexb(f[1])), hexb(f[2])
+			if err := nts.DecodePacket(pkt, b); err != nil {
+				msg := "err:" + ErrName(err)
+				k = kept{func() string { return msg }, same}
+				break
+			}
+			oracleOpen(key, pkt.Auth.Nonce, pkt.Auth.CipherText, b[:pkt.Auth.VerifC10Pos()])
+			if err := nts.ProcessRequest(b, key, pkt); err != nil {
+				msg := "err:" + ErrName(err)
+				k = kept{func() string { return msg }, same}
+				break
+			}
+			k = kept{func() string { return "ok:" + HexList(cookiesOf(pkt)) }, same}
+		case f[0] == "p" && len(f) == 4:
+			pkt := new(nts.Packet)
+			b, key := exact(hexb(f[1])), hexb(f[2])
+			if err := nts.DecodePacket(pkt, b); err != nil {
+				msg := "err:" + ErrName(err)
+				k = kept{func() string { return msg }, same}
+				break
+			}
+			oracleOpen(key, pkt.Auth.Nonce, pkt.Auth.CipherText, b[:pkt.Auth.VerifC10Pos()])
+			fe := new(ntske.Fetcher)
+			if err := nts.ProcessResponse(b, key, fe, pkt, hexb(f[3])); err != nil {
+				msg := "err:" + ErrName(err)
+				k = kept{func() string { return msg }, same}
+				break
+			}
+			k = kept{func() string { return "ok:" + HexList(fe.VerifC11Cookies()) }, same}
+		case f[0] == "x" && len(f) == 1:
+			cs := tlsState()
+			data := new(ntske.Data)
+			if err := ntske.ExportKeys(cs, data); err != nil {
+				k = kept{func() string { return "err:export" }, same}
+				break
+			}
+			k = kept{func() string { return "x:" + lib.Hex(data.C2sKey) + ":" + lib.Hex(data.S2cKey) }, func(full string) string {
+				g := strings.Split(full, ":")
+				if len(g) != 3 {
+					return full
+				}
+				rel := "ne"
+				if g[1] == g[2] {
+					rel = "eq"
+				}
+				return fmt.Sprintf("x:%d:%d:%s", len(g[1])/2, len(g[2])/2, rel)
+			}}
+		default:
+			panic("bad-op")
+		}
+		ks = append(ks, k)
+		early = append(early, k.full())
+	}
+	var out, unstable []string
+	var firstX string
+	for i, k := range ks {
+		late := k.full()
+		if late != early[i] {
+			unstable = append(unstable, strconv.Itoa(i))
+		}
+		if strings.HasPrefix(late, "x:") { // one connection: every export yields the same keys
+			if firstX == "" {
+				firstX = late
+			} else if late != firstX {
+				unstable = append(unstable, strconv.Itoa(i))
+			}
+		}
+		out = append(out, k.show(late))
+	}
+	ans := "ok " + strings.Join(out, " | ")
+	if len(unstable) > 0 {
+		ans += " unstable=" + strings.Join(unstable, ",")
+	}
+	return ans
+}
+
+// tlsState returns the state of a TLS 1.3 connection established in-process (once per worker).
+var tlsConnState *tls.ConnectionState
+
+func tlsState() tls.ConnectionState {
+	if tlsConnState != nil {
+		return *tlsConnState
+	}
+	key, err := ecdsa.GenerateKey(elliptic.P256(), origRand)
+	if err != nil {
+		panic(err)
+	}
+	tmpl := &x509.Certificate{SerialNumber: big.NewInt(1), Subject: pkix.Name{CommonName: "ntsx"},
+		NotBefore: time.Now().Add(-time.Hour), NotAfter: time.Now().Add(24 * time.Hour), DNSNames: []string{"ntsx"}}
+	der, err := x509.CreateCertificate(origRand, tmpl, tmpl, &key.PublicKey, key)
+	if err != nil {
+		panic(err)
+	}
+	cert := tls.Certificate{Certificate: [][]byte{der}, PrivateKey: key}
+	a, b := net.Pipe()
+	srv := tls.Server(a, &tls.Config{Certificates: []tls.Certificate{cert}, MinVersion: tls.VersionTLS13, Rand: origRand})
+	cli := tls.Client(b, &tls.Config{InsecureSkipVerify: true, MinVersion: tls.VersionTLS13, Rand: origRand})
+	errc := make(chan error, 1)
+	go func() { errc <- srv.Handshake() }()
+	if err := cli.Handshake(); err != nil {
+		panic(err)
+	}
+	if err := <-errc; err != nil {
+		panic(err)
+	}
+	st := cli.ConnectionState()
+	tlsConnState = &st
+	return st
+}
+
+var origRand = rand.Reader
 
 // srvReply is the NTS branch of runIPServer / runSCIONServer (core/server/server_ip.go,
 // server_scion.go), transcribed call by call over the real nts/ntske functions: the listeners
